@@ -52,6 +52,20 @@ class C16(Prop):
                 d3 = setp(d1, r.choice(unmasked), "changed")
                 api = "yaml"
                 docs = [dump(d1), dump(d2), dump(d3)]
+            elif r.chance(1, 4):
+                # ONE multi-path matcher (Any or Type[string]) with ErrOnMissingPath(false) and an ABSENT path listed before /
+                # between the present ones: the present ones are still masked
+                d1 = {"id": "i1", "createdAt": "c1", "token": "t1", "n": 1, "keep": [1, 2]}
+                mp = r.shuffle(["id", "createdAt", "token"])[: r.range(1, 3)]
+                paths = list(mp)
+                paths.insert(r.below(len(paths)), r.choice(["deletedAt", "nope.x", "zz"]))
+                ms = [{"kind": r.choice(["any", "type"]), "type": "string", "paths": paths, "errOnMissing": False, "stmt": r.chance(1, 2)}]
+                d2 = dict(d1)
+                for k_ in mp:
+                    d2[k_] = r.choice(["other", "x", "a much longer value"])
+                d3 = dict(d1, n=2)
+                api = r.choice(["json", "standjson"])
+                docs = [json.dumps(d).encode() for d in (d1, d2, d3)]
             else:
                 ast = J.gen_ast(r, maxdepth=3)
                 ps = pick_paths(r, ast, 4) if ast[0] in ("obj", "arr") else []
